@@ -1,6 +1,7 @@
 package main
 
 import (
+	"context"
 	"fmt"
 	"regexp"
 	"sort"
@@ -464,4 +465,113 @@ func init() {
 			return cleanupHistoryScenario(ma, writes, b)
 		})
 	}
+}
+
+// ---------------------------------------------------------------------------------------------
+// C14 through the rolling-file LOGGER (the kind that owns its appenders): every population of <= 2
+// entries x max ages 1 / 24 h, with separate=false (one appender: files named app.log.wf.<ts> belong to
+// somebody else) and separate=true with an INFO and an ERROR event (two appenders, each cleaning up after
+// its own rotation: app.log.<ts> and app.log.wf.<ts> are both own patterns then).
+// ---------------------------------------------------------------------------------------------
+
+func retLoggerScenario(p retPop, separate bool, b zzvrt.Bounds) *zzvrt.Scenario {
+	cutoff := retTick.Add(-time.Duration(p.maxAge) * time.Hour)
+	ownMain := regexp.MustCompile(`^app\.log\.\d{14}$`)
+	ownWf := regexp.MustCompile(`^app\.log\.wf\.\d{14}$`)
+	type ent struct {
+		name  string
+		dir   bool
+		mtime time.Time
+	}
+	var ents []ent
+	for _, it := range p.items {
+		e := retAlphabet[it.entry]
+		ents = append(ents, ent{strings.Replace(e.name, "%s", "app.log", 1), e.dir, cutoff.Add(retAges[it.age])})
+	}
+	var errS string
+	desc := fmt.Sprintf("RollingFile logger separate=%v %s", separate, p.desc())
+	return &zzvrt.Scenario{
+		Desc:   desc,
+		Before: func() { resetAll(); errS = "" },
+		Opts:   zzvrt.RunOpts{Bounds: b, Start: retStart, TickStep: time.Hour},
+		Body: func() {
+			x := zzvrt.Cur()
+			zzvrt.Atomic(func() {
+				log.Stdout = &slowSink{}
+				x.FS.MkdirAll(rollDir)
+				for _, e := range ents {
+					if e.dir {
+						x.FS.MkdirAll(rollDir + "/" + e.name)
+						x.FS.Nodes[rollDir+"/"+e.name].MTime = e.mtime
+					} else {
+						x.FS.Put(rollDir+"/"+e.name, []byte("keep\n"), e.mtime)
+					}
+				}
+				if err := log.Refresh(map[string]string{"appender.unused.type": "Discard",
+					"logger.root.type": "RollingFile", "logger.root.fileDir": rollDir, "logger.root.fileName": "app.log", "logger.root.rotation": "h",
+					"logger.root.maxAge": fmt.Sprint(p.maxAge), "logger.root.separate": fmt.Sprint(separate)}); err != nil {
+					errS = err.Error()
+				}
+				x.Now = retTick // the clock has crossed the boundary; the next events rotate
+			})
+			if errS != "" {
+				return
+			}
+			ctx := context.Background()
+			log.Info(ctx, c03Tags[0], log.Msg("i0"))
+			log.Error(ctx, c03Tags[1], log.Msg("e0"))
+			log.Info(ctx, c03Tags[0], log.Msg("i1"))
+			zzvrt.WaitQuiescent()
+			log.Destroy()
+		},
+		Check: func(x *zzvrt.Exec) (string, []zzvrt.Violation) {
+			key := desc
+			if x.Outcome != "" {
+				return x.Outcome, []zzvrt.Violation{{Clause: "no-" + strings.SplitN(x.Outcome, ":", 2)[0], Key: key, Detail: x.Outcome}}
+			}
+			if errS != "" {
+				return errS, []zzvrt.Violation{{Clause: "setup", Key: key, Detail: errS}}
+			}
+			var v []zzvrt.Violation
+			left := map[string]bool{}
+			for _, n := range x.FS.List(rollDir) {
+				left[n] = true
+			}
+			for _, e := range ents {
+				own := ownMain.MatchString(e.name) || (separate && ownWf.MatchString(e.name))
+				expectDeleted := !e.dir && own && e.mtime.Before(cutoff)
+				switch {
+				case expectDeleted && left[e.name]:
+					v = append(v, zzvrt.Violation{Clause: "expired-own-file-kept", Key: fmt.Sprintf("logger separate=%v name=%s age=cutoff%+v", separate, e.name, e.mtime.Sub(cutoff)),
+						Detail: fmt.Sprintf("%s should have been deleted [%s]", e.name, key)})
+				case !expectDeleted && !left[e.name]:
+					v = append(v, zzvrt.Violation{Clause: "foreign-or-young-deleted", Key: fmt.Sprintf("logger separate=%v name=%s age=cutoff%+v", separate, e.name, e.mtime.Sub(cutoff)),
+						Detail: fmt.Sprintf("%s (dir=%v, mtime %s, cut-off %s) must survive but was deleted [%s]", e.name, e.dir, e.mtime.Format(time.RFC3339Nano), cutoff.Format(time.RFC3339Nano), key)})
+				}
+			}
+			var names []string
+			for n := range left {
+				names = append(names, n)
+			}
+			sort.Strings(names)
+			return strings.Join(names, ","), v
+		},
+	}
+}
+
+func init() {
+	pops := func(tier string) []retPop {
+		var out []retPop
+		for _, p := range retPopulations(tier) {
+			if p.fileName == "app.log" && len(p.items) <= 2 && (p.maxAge == 1 || p.maxAge == 24) {
+				out = append(out, p)
+			}
+		}
+		return out
+	}
+	registerFamily(Fam{Prop: "C14", Name: "c14/rolling-logger-populations", Tiers: "qt",
+		Count: func(tier string) int { return 2 * len(pops(tier)) },
+		Make: func(tier string, i int) *zzvrt.Scenario {
+			return retLoggerScenario(pops(tier)[i/2], i%2 == 1, zzvrt.Bounds{Preempt: 1, Horizon: 8000})
+		}})
 }
